@@ -4,8 +4,8 @@ import CollectionsC.Properties.C01
 /-! # C08 (array and stack part) — a refused allocation is atomic
 
 Statements only.  For every allocating function of `cc_array.c`/`cc_stack.c` and every allocator
-state: if the allocator refuses (`m.alloc.1 = false`, or the pair of calls of a builder fails:
-`(alloc2 m).1 = false`), the call reports `CC_ERR_ALLOC`, the **whole physical state** of every array
+state: if the allocator of the array's triple refuses (`(m.allocT a.triple).1 = false`, or the pair of calls
+of a builder fails: `(alloc2 m a.triple).1 = false`; only the configured triple can refuse), the call reports `CC_ERR_ALLOC`, the **whole physical state** of every array
 involved is unchanged (builders: no object), the ledger is balanced (`live` unchanged: nothing
 leaked) and nothing faulted (no double free).  "Stays usable": the state being *equal*, every later
 call behaves as if the failed one had not happened (`blocked_step_is_identity`).
@@ -16,9 +16,13 @@ open CC
 open CC.Spec.Seq (Cfg Op Out)
 
 /-- `expand_capacity`: a refusal changes nothing, in particular not `capacity` (A2) -/
-theorem expand_refused_inert (a : Arr) (m : Mem) (hmax : ¬ a.AtLimit) (hr : m.alloc.1 = false) :
-    a.expandCapacity m = (.errAlloc, a, m.alloc.2) ∧ m.alloc.2.live = m.live ∧ m.alloc.2.fault = m.fault :=
-  ⟨Arr.expandCapacity_refused a m hmax hr, (Mem.alloc_fst_false m hr).1, (Mem.alloc_fst_false m hr).2.1⟩
+theorem expand_refused_inert (a : Arr) (m : Mem) (hmax : ¬ a.AtLimit) (hr : (m.allocT a.triple).1 = false) :
+    a.expandCapacity m = (.errAlloc, a, (m.allocT a.triple).2) ∧ (m.allocT a.triple).2.live = m.live ∧
+    (m.allocT a.triple).2.fault = m.fault := by
+  refine ⟨Arr.expandCapacity_refused a m hmax hr, ?_⟩
+  rcases Arr.allocT_cases m a.triple with ⟨g, _⟩ | ⟨_, g2, g3⟩
+  · rw [hr] at g; simp at g
+  · exact ⟨g2, g3⟩
 
 /-- `cc_array_add` -/
 theorem add_atomic (a : Arr) (x : Nat) (m : Mem) (hinv : a.Inv)
@@ -80,15 +84,15 @@ theorem zipAdd_atomic (a1 a2 : Arr) (it : ArrIter) (z : Spec.Seq.ZipCursor) (x y
 either allocator call yields `CC_ERR_ALLOC`, no object, balanced ledger (the header allocated first
 is released) -/
 theorem builders_atomic (a : Arr) (b e : Nat) (cp : Nat → Nat) (p : Nat → Bool) (m : Mem) (hinv : a.Inv)
-    (hr : (Arr.alloc2 m).1 = false) :
+    (hr : (Arr.alloc2 m a.triple).1 = false) :
     (b ≤ e ∧ e < a.size → (a.subarray b e m).1 = .errAlloc ∧ (a.subarray b e m).2.1 = none ∧
-      (a.subarray b e m).2.2.live = m.live ∧ (a.subarray b e m).2.2.fault = m.fault) ∧
+      Arr.own a.triple (a.subarray b e m).2.2 = Arr.own a.triple m ∧ (a.subarray b e m).2.2.fault = m.fault) ∧
     ((a.copyShallow m).1 = .errAlloc ∧ (a.copyShallow m).2.1 = none ∧
-      (a.copyShallow m).2.2.live = m.live ∧ (a.copyShallow m).2.2.fault = m.fault) ∧
+      Arr.own a.triple (a.copyShallow m).2.2 = Arr.own a.triple m ∧ (a.copyShallow m).2.2.fault = m.fault) ∧
     ((a.copyDeep cp m).1 = .errAlloc ∧ (a.copyDeep cp m).2.1 = none ∧
-      (a.copyDeep cp m).2.2.2.live = m.live ∧ (a.copyDeep cp m).2.2.2.fault = m.fault) ∧
+      Arr.own a.triple (a.copyDeep cp m).2.2.2 = Arr.own a.triple m ∧ (a.copyDeep cp m).2.2.2.fault = m.fault) ∧
     (0 < a.size → (a.filter p m).1 = .errAlloc ∧ (a.filter p m).2.1 = none ∧
-      (a.filter p m).2.2.2.live = m.live ∧ (a.filter p m).2.2.2.fault = m.fault) := by
+      Arr.own a.triple (a.filter p m).2.2.2 = Arr.own a.triple m ∧ (a.filter p m).2.2.2.fault = m.fault) := by
   refine ⟨fun hrange => ?_, ?_, ?_, fun hpos => ?_⟩
   · rcases Arr.subarray_spec a b e m hinv with ⟨_, hn, _⟩ | ⟨s1, _, _, s2, s3, s4⟩ | ⟨_, _, ht, _⟩
     · exact absurd hrange hn
@@ -105,28 +109,28 @@ theorem builders_atomic (a : Arr) (b e : Nat) (cp : Nat → Nat) (p : Nat → Bo
     · exact ⟨s1, s2, s3, s4⟩
     · rw [hr] at ht; simp at ht
 
-theorem new_atomic (cap : Nat) (grow : Nat → Nat) (exGe : Nat → Bool) (m : Mem)
-    (h : (Arr.new cap grow exGe m).1 ≠ .ok) :
-    (Arr.new cap grow exGe m).2.1 = none ∧ (Arr.new cap grow exGe m).2.2.live = m.live ∧
-    (Arr.new cap grow exGe m).2.2.fault = m.fault := by
-  rcases Arr.new_spec cap grow exGe m with ⟨_, s2, s3, _⟩ | ⟨_, s2, _, _, s3, s4⟩ | ⟨ok, _⟩
+theorem new_atomic (cap : Nat) (grow : Nat → Nat) (exGe : Nat → Bool) (m : Mem) (t : Triple)
+    (h : (Arr.new cap grow exGe m t).1 ≠ .ok) :
+    (Arr.new cap grow exGe m t).2.1 = none ∧ Arr.own t (Arr.new cap grow exGe m t).2.2 = Arr.own t m ∧
+    (Arr.new cap grow exGe m t).2.2.fault = m.fault := by
+  rcases Arr.new_spec cap grow exGe m t with ⟨_, s2, s3, _⟩ | ⟨_, s2, _, _, s3, s4⟩ | ⟨ok, _⟩
   · rw [s3]; exact ⟨s2, rfl, rfl⟩
   · exact ⟨s2, s3, s4⟩
   · exact absurd ok h
 
 /-- wrapped construction: `cc_stack_new_conf` propagates the inner failure and frees the header;
 `cc_stack_filter` releases the partly built result on any refusal (Q3) -/
-theorem stack_new_atomic (cap : Nat) (grow : Nat → Nat) (exGe : Nat → Bool) (m : Mem)
-    (h : (Stack.new cap grow exGe m).1 ≠ .ok) :
-    (Stack.new cap grow exGe m).2.1 = none ∧ (Stack.new cap grow exGe m).2.2.live = m.live ∧
-    (Stack.new cap grow exGe m).2.2.fault = m.fault := by
-  rcases Stack.new_spec cap grow exGe m with ⟨_, s2, s3, s4⟩ | ⟨ok, _⟩
+theorem stack_new_atomic (cap : Nat) (grow : Nat → Nat) (exGe : Nat → Bool) (m : Mem) (t : Triple)
+    (h : (Stack.new cap grow exGe m t).1 ≠ .ok) :
+    (Stack.new cap grow exGe m t).2.1 = none ∧ Arr.own t (Stack.new cap grow exGe m t).2.2 = Arr.own t m ∧
+    (Stack.new cap grow exGe m t).2.2.fault = m.fault := by
+  rcases Stack.new_spec cap grow exGe m t with ⟨_, s2, s3, s4⟩ | ⟨ok, _⟩
   · exact ⟨s2, s3, s4⟩
   · exact absurd ok h
 
 theorem stack_filter_atomic (p : Nat → Bool) (s : Stack) (dgrow : Nat → Nat) (dexGe : Nat → Bool) (m : Mem)
     (hinv : s.Inv) (h : (s.filter p dgrow dexGe m).1 ≠ .ok) :
-    (s.filter p dgrow dexGe m).2.1 = none ∧ (s.filter p dgrow dexGe m).2.2.2.live = m.live ∧
+    (s.filter p dgrow dexGe m).2.1 = none ∧ Arr.own s.triple (s.filter p dgrow dexGe m).2.2.2 = Arr.own s.triple m ∧
     (s.filter p dgrow dexGe m).2.2.2.fault = m.fault := by
   rcases Stack.filter_spec p s dgrow dexGe m hinv with ⟨_, _, s2, s3⟩ | ⟨_, _, s2, s3, s4⟩ | ⟨ok, _⟩
   · rw [s3]; exact ⟨s2, rfl, rfl⟩
@@ -150,19 +154,25 @@ theorem blocked_step_is_identity (cfg : Cfg) (a : Arr) (op : Op) (m : Mem) (hinv
 
 /-! ## `refused_iff`: `CC_ERR_ALLOC` is reported exactly when a refusal fired
 
-`Mem.nrefused` counts the refusals of the configured allocator. -/
+`Mem.nrefused` counts the refusals of the configured allocator (the C library never refuses). -/
 
 /-- one call of the C01 vocabulary, every schedule: the call reports `CC_ERR_ALLOC` iff exactly one
 refusal fired during it; otherwise none fired -/
 theorem refused_iff (cfg : Cfg) (a : Arr) (op : Op) (m : Mem) (hinv : a.Inv) :
     ((a.step cfg op m).1.st = some .errAlloc ↔ (a.step cfg op m).2.2.nrefused = m.nrefused + 1) ∧
     ((a.step cfg op m).1.st ≠ some .errAlloc → (a.step cfg op m).2.2.nrefused = m.nrefused) := by
-  obtain ⟨_, l2⟩ := Arr.step_led cfg a op m hinv
+  have l2 := (Arr.step_led cfg a op m hinv).2.2.1
   by_cases h : (a.step cfg op m).1.st = some .errAlloc
   · simp only [h, decide_true, if_true] at l2
     exact ⟨⟨fun _ => l2, fun _ => h⟩, fun hn => absurd h hn⟩
   · simp only [h, decide_false] at l2
     exact ⟨⟨fun hh => absurd hh h, fun hh => by simp at l2; omega⟩, fun _ => by simpa using l2⟩
+
+/-- an array on the C-library triple (`cc_array_new`) is never refused -/
+theorem default_never_refused (cfg : Cfg) (a : Arr) (op : Op) (m : Mem) (hinv : a.Inv) (ht : a.triple = .libc) :
+    (a.step cfg op m).1.st ≠ some .errAlloc := by
+  have l := (Arr.step_led cfg a op m hinv).2.2.2 ht
+  simpa using l
 
 /-- over a history: the number of refusals that fired equals the number of calls that reported
 `CC_ERR_ALLOC` -/
@@ -170,47 +180,36 @@ theorem history_refused_count (cfg : Cfg) (ops : List Op) (a : Arr) (m : Mem) (h
     (hsort : ∀ xs, (cfg.sortFn xs).length = xs.length) :
     (a.run cfg ops m).2.2.nrefused =
       m.nrefused + ((a.run cfg ops m).1.filter (fun o => decide (o.st = some .errAlloc))).length :=
-  (Arr.run_led cfg ops a m hinv hsort).2
+  (Arr.run_led cfg ops a m hinv hsort).2.2.1
 
 /-- constructor and builders: `CC_ERR_ALLOC` iff a refusal fired (then exactly one) -/
 theorem lifecycle_refused_iff (a : Arr) (cap b e : Nat) (grow : Nat → Nat) (exGe : Nat → Bool) (cp : Nat → Nat)
-    (p : Nat → Bool) (m : Mem) :
-    ((Arr.new cap grow exGe m).1 = .errAlloc ↔ (Arr.new cap grow exGe m).2.2.nrefused = m.nrefused + 1) ∧
+    (p : Nat → Bool) (m : Mem) (t : Triple) :
+    ((Arr.new cap grow exGe m t).1 = .errAlloc ↔ (Arr.new cap grow exGe m t).2.2.nrefused = m.nrefused + 1) ∧
     ((a.subarray b e m).1 = .errAlloc ↔ (a.subarray b e m).2.2.nrefused = m.nrefused + 1) ∧
     ((a.copyShallow m).1 = .errAlloc ↔ (a.copyShallow m).2.2.nrefused = m.nrefused + 1) ∧
     ((a.copyDeep cp m).1 = .errAlloc ↔ (a.copyDeep cp m).2.2.2.nrefused = m.nrefused + 1) ∧
-    ((a.filter p m).1 = .errAlloc ↔ (a.filter p m).2.2.2.nrefused = m.nrefused + 1) := by
-  have key : ∀ {m' : Mem} {st : Stat}, Arr.Led m m' (decide (st = .errAlloc)) →
-      (st = .errAlloc ↔ m'.nrefused = m.nrefused + 1) := by
-    intro m' st l
-    by_cases h : st = .errAlloc
-    · simp only [h, decide_true] at l; exact ⟨fun _ => l.2, fun _ => h⟩
-    · simp only [h, decide_false] at l
-      exact ⟨fun hh => absurd hh h, fun hh => by have := l.2; simp at this; omega⟩
-  exact ⟨key (Arr.new_led cap grow exGe m), key (Arr.subarray_led a b e m), key (Arr.copyShallow_led a m),
-    key (Arr.copyDeep_led cp a m), key (Arr.filter_led p a m)⟩
+    ((a.filter p m).1 = .errAlloc ↔ (a.filter p m).2.2.2.nrefused = m.nrefused + 1) :=
+  ⟨(Arr.new_led cap grow exGe m t).nrefused_iff.1, (Arr.subarray_led a b e m).nrefused_iff.1,
+   (Arr.copyShallow_led a m).nrefused_iff.1, (Arr.copyDeep_led cp a m).nrefused_iff.1,
+   (Arr.filter_led p a m).nrefused_iff.1⟩
 
-/-- iterator insertion; and the zip insertion on two arrays that are not at the capacity limit (at
-the limit `cc_array_zip_iter_add` also answers `CC_ERR_ALLOC`, without any refusal) -/
+/-- iterator insertion; and the zip insertion on two arrays sharing one triple that are not at the
+capacity limit (at the limit `cc_array_zip_iter_add` also answers `CC_ERR_ALLOC`, without any refusal) -/
 theorem iter_add_refused_iff (a a2 : Arr) (it : ArrIter) (x y : Nat) (m : Mem) (h1 : a.Inv) (h2 : a2.Inv)
-    (hl1 : ¬ a.AtLimit) (hl2 : ¬ a2.AtLimit) :
+    (ht : a2.triple = a.triple) (hl1 : ¬ a.AtLimit) (hl2 : ¬ a2.AtLimit) :
     ((a.iterAdd it x m).1 = .errAlloc ↔ (a.iterAdd it x m).2.2.2.nrefused = m.nrefused + 1) ∧
     ((Arr.zipAdd a a2 it x y m).1 = .errAlloc ↔ (Arr.zipAdd a a2 it x y m).2.2.2.2.nrefused = m.nrefused + 1) := by
-  constructor
-  · have l := Arr.iterAdd_led a it x m
-    by_cases h : (a.iterAdd it x m).1 = .errAlloc
-    · simp only [h, decide_true] at l; exact ⟨fun _ => l.2, fun _ => h⟩
-    · simp only [h, decide_false] at l
-      exact ⟨fun hh => absurd hh h, fun hh => by have := l.2; simp at this; omega⟩
-  · obtain ⟨_, z2, z3, _⟩ := Arr.zipAdd_led a a2 it x y m h1 h2
-    exact ⟨fun h => z3 h, fun h => z2 (by omega)⟩
+  refine ⟨(Arr.iterAdd_led a it x m).nrefused_iff.1, ?_⟩
+  obtain ⟨_, _, z2, z3, _⟩ := Arr.zipAdd_led a a2 it x y m h1 h2 ht
+  exact ⟨fun h => z3 h hl1 hl2, fun h => z2 (by omega)⟩
 
 /-! ## `continue`: after a refused call the history goes on as if the call had not been made -/
 
-/-- a history `ops₁ ++ [op] ++ ops₂` whose call `op` was blocked: the outputs are those of `ops₁`,
-the blocked report, and then exactly what `ops₂` yields from the state `ops₁` left — under any ledger
-`m'` that holds the schedule remaining after the failed call ("once memory is available again");
-the final states coincide as well -/
+/-- a history `ops₁ ++ [op] ++ ops₂` whose call `op` was blocked, **for every schedule**: the outputs
+are those of `ops₁`, the blocked report, and then exactly what `ops₂` yields from the state `ops₁`
+left — under any ledger `m'` that holds the schedule remaining after the failed call ("once memory
+is available again" or not: later refusals are replayed identically); the final states coincide -/
 theorem continue_after_refusal (cfg : Cfg) (ops1 ops2 : List Op) (op : Op) (a : Arr) (m m' : Mem) (hinv : a.Inv)
     (hsort : ∀ xs, (cfg.sortFn xs).length = xs.length)
     (hb : ((a.run cfg ops1 m).2.1.step cfg op (a.run cfg ops1 m).2.2).1.blocked ≠ none)
@@ -219,14 +218,21 @@ theorem continue_after_refusal (cfg : Cfg) (ops1 ops2 : List Op) (op : Op) (a : 
       (a.run cfg ops1 m).1 ++ ((a.run cfg ops1 m).2.1.step cfg op (a.run cfg ops1 m).2.2).1 ::
         ((a.run cfg ops1 m).2.1.run cfg ops2 m').1 ∧
     (a.run cfg (ops1 ++ op :: ops2) m).2.1 = ((a.run cfg ops1 m).2.1.run cfg ops2 m').2.1 := by
-  obtain ⟨_, _, i3, _, i5, _⟩ := C01.history_refines cfg ops1 a m hinv hsort
+  obtain ⟨_, _, i3, _⟩ := C01.history_refines cfg ops1 a m hinv hsort
   obtain ⟨ap1, ap2⟩ := Arr.run_append cfg ops1 (op :: ops2) a m
-  obtain ⟨b1, b2, _⟩ := blocked_step_is_identity cfg (a.run cfg ops1 m).2.1 op (a.run cfg ops1 m).2.2 i3 (by omega) hsort hb
+  obtain ⟨b1, _⟩ := blocked_step_is_identity cfg (a.run cfg ops1 m).2.1 op (a.run cfg ops1 m).2.2 i3 hsort hb
   have hind := Arr.run_indep cfg ops2 (a.run cfg ops1 m).2.1
-    ((a.run cfg ops1 m).2.1.step cfg op (a.run cfg ops1 m).2.2).2.2 m' i3 (by omega)' hsort hm'.symm
+    ((a.run cfg ops1 m).2.1.step cfg op (a.run cfg ops1 m).2.2).2.2 m' i3 hsort hm'.symm
   rw [ap1, ap2]
   simp only [Arr.run]
   rw [b1]
   exact ⟨by rw [hind.1], hind.2.1⟩
+
+/-! Non-vacuity: a full array, the allocator refusing the growth request -/
+example :
+    let a : Arr := Arr.mk 2 2 [5, 6] (fun c => 2 * c) .conf
+    let r := a.add 7 { sched := [true], live := 2 }
+    a.Inv ∧ r.1 = .errAlloc ∧ r.2.1.abs = [5, 6] ∧ r.2.1.capacity = 2 ∧ r.2.2.live = 2 ∧ r.2.2.nrefused = 1 ∧
+    r.2.2.fault = false ∧ ((r.2.1.add 7 r.2.2).1 = .ok ∧ (r.2.1.add 7 r.2.2).2.1.abs = [5, 6, 7]) := by decide
 
 end CC.Properties.C08Array
